@@ -377,6 +377,11 @@ func (e *Engine) Bind() (bound []Bound, unbound []*Contract) {
 				if f.Origin() == nil || len(f.TypeArgs()) == 0 || !strings.HasPrefix(fk, c.PkgPath+"::") || c.PkgPath == "" {
 					continue
 				}
+				if hasTypeParamArg(f.TypeArgs()) {
+					// an "instance" mentioned inside another generic body (type arguments are
+					// themselves type parameters): not executable code, nothing to verify
+					continue
+				}
 				if stripTypeArgs(strings.TrimPrefix(fk, c.PkgPath+"::")) == c.Key {
 					inst = append(inst, f)
 				}
@@ -398,3 +403,39 @@ func (e *Engine) Bind() (bound []Bound, unbound []*Contract) {
 }
 
 var _ = ast.Inspect
+
+func hasTypeParamArg(targs []types.Type) bool {
+	var has func(t types.Type, depth int) bool
+	has = func(t types.Type, depth int) bool {
+		if depth > 6 {
+			return false
+		}
+		switch x := t.(type) {
+		case *types.TypeParam:
+			return true
+		case *types.Pointer:
+			return has(x.Elem(), depth+1)
+		case *types.Slice:
+			return has(x.Elem(), depth+1)
+		case *types.Array:
+			return has(x.Elem(), depth+1)
+		case *types.Map:
+			return has(x.Key(), depth+1) || has(x.Elem(), depth+1)
+		case *types.Named:
+			if ta := x.TypeArgs(); ta != nil {
+				for i := 0; i < ta.Len(); i++ {
+					if has(ta.At(i), depth+1) {
+						return true
+					}
+				}
+			}
+		}
+		return false
+	}
+	for _, t := range targs {
+		if has(t, 0) {
+			return true
+		}
+	}
+	return false
+}
